@@ -12,3 +12,4 @@ open Pcore.Syntax
 #print axioms C05_struct_key_forms
 #print axioms C05_callable_unit_dropped
 #print axioms C05_callable_leading_tuple
+#print axioms C05_typed_value_roundtrip
